@@ -12,15 +12,15 @@ decode = default_decode(SIG)
 TASK_REQS = 1500
 CAST_TYPES = ['u8x1', 'i8x1', 'u8x3', 'i8x3', 'u8x5', 'i8x5', 'u8x17', 'i8x17', 'u16x1', 'i16x1', 'u16x3', 'i16x3', 'u16x5', 'i16x5',
               'u32x2', 'i32x2', 'u32x3', 'i32x3', 'u32x5', 'i32x5', 'u64x1', 'i64x1', 'u64x2', 'i64x2', 'u64x3', 'i64x3',
-              'u64x5', 'i64x5', 'u32x10', 'i32x10', 'u8x33', 'i8x33']
+              'u64x5', 'i64x5', 'u32x10', 'i32x10', 'u8x33', 'i8x33', 'u8x260', 'i8x260']
 PRIMS = [('u8', 0, 8), ('u16', 0, 16), ('u32', 0, 32), ('u64', 0, 64), ('u128', 0, 128), ('usize', 0, 64),
          ('i8', 1, 8), ('i16', 1, 16), ('i32', 1, 32), ('i64', 1, 64), ('i128', 1, 128), ('isize', 1, 64)]
-RULE = ('every source value is cast (CastFrom and As) into all 32 types of the cast list (all four digit sizes, both signs, widths '
-        '8..320 that are and are not multiples of each other) and all 12 primitives; primitives, bool and char are cast into every '
+RULE = ('every source value is cast (CastFrom and As) into all 34 types of the cast list (all four digit sizes, both signs, widths '
+        '8..2080 that are and are not multiples of each other) and all 12 primitives; primitives, bool and char are cast into every '
         'list type; cast_signed/cast_unsigned/to_bits/from_bits on the main configuration table. Sources: structured values plus, '
         'for a randomly chosen target, that target\'s MAX, MAX+1, MIN, MIN-1, 2^BITS+-1 and patterns with garbage exactly in the bits '
         'that must be dropped. Non-trivial: negative source (sign extension) or a source wider than the narrowest target '
-        '(truncation); distinct = distinct request lines. 1024 ordered bnum x bnum pairs, 384 bnum -> primitive, 384+64 primitive/bool/char -> bnum')
+        '(truncation); distinct = distinct request lines. 1156 ordered bnum x bnum pairs, 408 bnum -> primitive, 408+68 primitive/bool/char -> bnum')
 
 
 def prim_cfg(name):
